@@ -59,8 +59,10 @@ class DefaultObjectLoader(ObjectLoader):
 
     def identify_object(self, obj: Any) -> str:
         identifier = f'{obj.__module__}:{obj.__name__}'
-        # Make sure we can load the object
-        self.load_object(identifier)
+        # Make sure we can load the object, and that it is this object that gets loaded (e.g. not a module level class
+        # that has the same name as a nested one)
+        if self.load_object(identifier) is not obj:
+            raise ValueError(f'identifier `{identifier}` does not load the object `{obj}` that is to be identified.')
         return identifier
 
 
